@@ -12,9 +12,10 @@ CFG = dict(
     header=H + "From NV.Common Require Import LockTable.\nFrom NV.C12 Require Import Model Run.\nOpen Scope N_scope.",
     kinds={"lm": ("lm_case", "check_lm"), "coord": ("lm_case", "check_lm"), "graph": ("graph_case", "check_graph")},
     known_classes={},
-    rule="seeded op sequences on the real LockManager + WaitForGraph (lock/relock/release by tx and by handle/expiry through the clock hook/serialize-restore), coordinator-level prepare/vote/commit/abort/timeout sequences projected on the same ops, every digraph on <= 3 (thorough: 4) transactions plus random wait-for graphs on <= 8 through DeadlockDetector, and 2-6 thread stress with a mutual-exclusion oracle",
+    rule="seeded op sequences on the real LockManager + WaitForGraph (lock/relock/release by tx and by handle/expiry through the clock hook/serialize-restore), coordinator-level prepare/vote/commit/abort/timeout sequences projected on the same ops, every digraph on <= 3 (thorough: 4) transactions plus random wait-for graphs on <= 8 through DeadlockDetector, 2-6 thread stress with a mutual-exclusion oracle, and forced two-thread interleavings (prepare of a waiter against abort/commit/timeout of the holder) through the schedule-point hook",
     trusted_base=COMMON_TB + [
         "guarded clock hook tensor_chain::distributed_tx::verif_clock (commit 317762a3) replaces wall-clock reads by an explicit `now`",
+        "guarded schedule-point hook tensor_chain::distributed_tx::verif_sched (commit 04879d59; one point at the entry of WaitForGraph::add_wait) lets the harness hold one thread there while another runs",
         "modelled, not verified: HashMap/HashSet as association lists / duplicate-free lists (iteration order never observed: the DFS theorems hold for every neighbour/start order, dumps are sorted); u64 as unbounded N (lock-handle counter overflow not modelled); parking_lot RwLock (each LockManager op is one atomic step because it holds both table guards for its whole body: checked on the source by the translator); bitcode round trip of SerializableLockState is the identity",
     ],
     assumptions=[
